@@ -149,7 +149,7 @@ Definition as_bool (r : res pv) : res bool := bind r (fun v => Ok (truthy v)).
 (* one condition on one cell, as the repaired _column_filter evaluates it:
    in -> isin (False on a missing cell); not in -> ~isin (True on a missing cell);
    comparison operators on the cells that hold a value, a missing cell satisfies only "!=";
-   any other operator leaves the AND group unchanged *)
+   "~" selects the rows whose cell is falsy; any other operator leaves the AND group unchanged *)
 Definition cond_cell (op : string) (x c : pv) : res bool :=
   if op =s "in" then (if is_none x then Ok false else as_bool (py_in x c)) else
   if op =s "not in" then (if is_none x then Ok true else as_bool (py_not_in x c)) else
@@ -158,7 +158,9 @@ Definition cond_cell (op : string) (x c : pv) : res bool :=
   if op =s "<" then (if is_none x then Ok false else as_bool (py_lt x c)) else
   if op =s "<=" then (if is_none x then Ok false else as_bool (py_le x c)) else
   if op =s ">" then (if is_none x then Ok false else as_bool (py_gt x c)) else
-  if op =s ">=" then (if is_none x then Ok false else as_bool (py_ge x c)) else Ok true.
+  if op =s ">=" then (if is_none x then Ok false else as_bool (py_ge x c)) else
+  (* "~": the rows where the (boolean) column is False; a missing cell is not selected; the constant is ignored *)
+  if op =s "~" then (if is_none x then Ok false else Ok (negb (truthy x))) else Ok true.
 
 Fixpoint all_res {A} (f : A -> res bool) (l : list A) : res bool :=      (* and_part &= ... (no short cut) *)
   match l with
